@@ -422,11 +422,15 @@ func Interpret(reg *Region, w World) (out *Outcome) {
 	}
 	fr := &frame{fn: reg.Fn, env: map[ssa.Value]Val{}}
 	r.topFrame = fr
-	for _, p := range reg.Fn.Params {
-		if v, ok := reg.Params[p.Name()]; ok {
+	for i, p := range reg.Fn.Params {
+		// parameters are known to the rules under the names recorded for the reference tree
+		name := refParamName(reg.Fn, i)
+		if v, ok := reg.Params[name]; ok {
+			fr.env[p] = v
+		} else if v, ok := reg.Params[p.Name()]; ok {
 			fr.env[p] = v
 		} else {
-			fr.env[p] = r.defaultParam(p)
+			fr.env[p] = r.defaultParamNamed(p, name)
 		}
 	}
 	if reg.Start != nil && reg.PreWorld != nil {
@@ -447,7 +451,7 @@ func (r *Run) finish() {
 		out.Env = map[string]string{}
 		for v, val := range r.topFrame.env {
 			if phi, ok := v.(*ssa.Phi); ok && phi.Comment != "" {
-				out.Env[phi.Comment] = render(val)
+				out.Env[phiNameFor(r.topFrame.fn, phi)] = render(val)
 			}
 		}
 	}
@@ -471,19 +475,21 @@ func (r *Run) finish() {
 	sort.Strings(out.Asked)
 }
 
-func (r *Run) defaultParam(p *ssa.Parameter) Val {
+func (r *Run) defaultParam(p *ssa.Parameter) Val { return r.defaultParamNamed(p, p.Name()) }
+
+func (r *Run) defaultParamNamed(p *ssa.Parameter, name string) Val {
 	t := p.Type()
 	switch u := t.Underlying().(type) {
 	case *types.Pointer:
 		_ = u
-		o := r.NewObj(p.Name(), false)
+		o := r.NewObj(name, false)
 		return VPtr{o, ""}
 	case *types.Basic:
 		if u.Info()&types.IsInteger != 0 {
-			return VSym{Name: p.Name()}
+			return VSym{Name: name}
 		}
 	}
-	return VOpq{p.Name()}
+	return VOpq{name}
 }
 
 // exec interprets from block b until return / panic / cut.
